@@ -134,6 +134,9 @@ func settingsFor(initiator bool, dir string, port int) *quickfix.Settings {
 	g.Set(config.ReconnectInterval, "1")
 	g.Set(config.LogonTimeout, "2")
 	g.Set(config.LogoutTimeout, "1")
+	if os.Getenv("VERIF_789") != "" {
+		g.Set(config.EnableNextExpectedMsgSeqNum, "Y")
+	}
 	ss := quickfix.NewSessionSettings()
 	ss.Set(config.BeginString, "FIX.4.2")
 	if initiator {
@@ -236,6 +239,24 @@ func runOnce(runID int, seed int64, restarts bool) (tr.M, error) {
 			events = append(events, "cut")
 			if hold {
 				time.Sleep(time.Duration(rng.Intn(300)) * time.Millisecond)
+				// submissions while the link is down: accepted, numbered and stored; delivered after the reconnect
+				for j := rng.Intn(3); j > 0; j-- {
+					if rng.Intn(2) == 0 {
+						nI++
+						id := fmt.Sprintf("i%d", nI)
+						if quickfix.SendToTarget(order(id), iniID) == nil {
+							sentI = append(sentI, id)
+							events = append(events, "sendI(down)")
+						}
+					} else {
+						nA++
+						id := fmt.Sprintf("a%d", nA)
+						if quickfix.SendToTarget(order(id), accID) == nil {
+							sentA = append(sentA, id)
+							events = append(events, "sendA(down)")
+						}
+					}
+				}
 				px.up()
 			}
 		default:
